@@ -15,6 +15,7 @@ def run(ctx):
     nfail = mdibcheck.judge(ctx, 'mirror', pairs, [mdibgen.oracle_consumer], {'C01'})
     m1 = mdibcheck.model_correspondence(ctx, 'mirror', pairs, FILES)
     m2 = mdibcheck.consumer_correspondence(ctx, 'mirror', pairs, FILES)
+    m3 = mdibcheck.report_correspondence(ctx, 'mirror', pairs, FILES)
     if (m1 or m2) and not nfail:
         more = mdibcheck.run_histories(ctx, 'mirror-search', ctx.n(150, 600), ctx.n(12, 40), consumer=True, mdib_files=FILES)
         mdibcheck.judge(ctx, 'mirror-search', more, [mdibgen.oracle_consumer], {'C01'})
